@@ -26,6 +26,35 @@ CLAIMS = {
             "Oracle = layered set enumeration validated against itertools.product brute force at the start of every "
             "run; exponential, hence the size envelope. ILP restricted to values <=200 as in the quantifier.",
             "DESIGN.md 6/C02"),
+    "C03": ("exploration", "property-based testing with a feasibility/conservation predicate over every output type",
+            "Generated packing inputs (6 value profiles incl. planted-perfect and 'hard' families, ints and eighths, five "
+            "presentations) for ff/ffd/bf/bfd/bin_completion; oracle: every bin sum <= bin size in exact arithmetic, "
+            "multiset of names equals the input (bin_completion modulo zero-valued items), no empty bin, and the bin "
+            "count of every other output type equals that of the Partition output.",
+            "bin_completion limited to <=11 items by its own exponential completion generator; max/min-type outputs of a "
+            "zero-bin result raising ValueError is accepted (undefined quantity).",
+            "DESIGN.md 6/C03"),
+    "C04": ("exploration", "property-based testing against an exact bitmask-DP optimum + bounded-exhaustive enumeration",
+            "bin_completion's bin count (Partition, Sums, BinCount outputs) is compared with the exact minimum from a "
+            "bitmask DP on generated instances where best-fit-decreasing is not optimal (constructed 'hard' planted "
+            "families) and on all multisets of <=7 items from 1..C for C in {5,6,7,8,10}; feasibility of the returned "
+            "packing is checked so that an infeasible packing cannot pass as optimal.",
+            "Oracle validated against brute force at start; <=12 items.",
+            "DESIGN.md 6/C04"),
+    "C05": ("exploration", "property-based testing with a cover-validity predicate",
+            "Generated covering inputs (positive ints incl. items above the bin size, class-threshold values, inputs too "
+            "small to cover a bin; five presentations) for the three covering algorithms; oracle: each bin sum >= bin "
+            "size, each name used at most once and known, unused value < bin size.",
+            "Exact integer arithmetic; names homogeneous per input.",
+            "DESIGN.md 6/C05"),
+    "C14": ("exploration", "differential property-based testing against reference models transcribed from the documentation",
+            "Each of the nine simple heuristics is compared with a direct transcription of its documented rule "
+            "(pbt/refmodels.py) on up to 40 items incl. ties, exact fills and the class thresholds C/2, C/3: sorted bin "
+            "sums for greedy/bf/bfd, bins as multisets of value multisets for the others. A case counts as non-trivial "
+            "only if flipping one comparison in the reference changes the reference's answer on it.",
+            "The reference models are the specification; they were read off the docstrings and Csirik-Frenk-Labbe-Zhang "
+            "(1999).",
+            "DESIGN.md 6/C14"),
 }
 
 
